@@ -35,6 +35,7 @@ def run(ctx):
         ctx.rule(rid, t)
 
     r20_5(ctx)
+    r20_6(ctx)
 
     # ---- R20.1 -----------------------------------------------------------------------------------------
     af = F.one('AnalyzerInformation::analyzeFile')
@@ -279,3 +280,42 @@ def r20_5(ctx):
            'CppCheck::checkInternal calls %s at line %s on a path where the cache file has already been closed (closing tag written): a run killed in between leaves a '
            'well-formed cache file with the right key that lacks these findings, and the next run replays it' % (bad[0][0].get('fn'), bad[0][0]['l']),
            '%s:%s' % (ci['file'], bad[0][0]['l'] if bad else ci['line']))
+
+
+def r20_6(ctx, rid='R20.6'):
+    """R20.6  re-opening keeps what is stored: AnalyzerInformation::reopen rewrites the existing cache file so that more findings can be appended.  The text
+    it writes back is the stored content cut at the closing tag and nothing else: the local that holds the content is modified only by
+    `resize(find("</analyzerinfo>"))`.  (Findings of a cache-hit file exist only in that file; dropping or rewriting some of them loses them for every later
+    run - C18 - and a kill between truncation and rewrite must not leave a shorter but acceptable file - C20.)"""
+    F = ctx.facts
+    ctx.rule(rid, 'AnalyzerInformation::reopen writes back the stored content unchanged up to the closing tag')
+    ro = F.one('AnalyzerInformation::reopen')
+    body = F.body(ro)['body']
+    content = None
+    for x in walk(body):
+        if x.get('k') == 'VarDecl' and (x.get('t') or '') in ('std::string',) and x.get('init') is not None and any((y.get('fn') or '').endswith('::str') for y in walk(x['init'])):
+            content = x
+    if content is None:
+        raise AnalysisBroken('AnalyzerInformation::reopen: the local holding the stored content was not found')
+    di = content['di']
+    MUT = {'resize', 'erase', 'replace', 'insert', 'append', 'assign', 'clear', 'pop_back', 'push_back', 'operator=', 'operator+=', 'swap'}
+    muts = []
+    for x in walk(body):
+        if x.get('k') == 'CXXMemberCallExpr' and (x.get('fn') or '').split('::')[-1] in MUT and any(y.get('di') == di for y in walk(x['c'][0])):
+            muts.append(x)
+        if x.get('k') == 'CXXOperatorCallExpr' and x.get('op') in ('=', '+=') and strip(x['c'][1]).get('di') == di:
+            muts.append(x)
+        if x.get('k') in ('CallExpr', 'CXXMemberCallExpr') and x.get('fid') and not (x.get('fn') or '').startswith('std::'):
+            for a in call_args(x):
+                a0 = strip(a)
+                if a0 is not None and a0.get('k') == 'DeclRefExpr' and a0.get('di') == di and not (a.get('t') or '').startswith('const'):
+                    ptypes = [p_['t'] for g in F.resolve(ro, x['fid'], False) for p_ in g.get('params', [])]
+                    if any(t.endswith('&') and not t.startswith('const') for t in ptypes):
+                        muts.append(x)
+    allowed = [m for m in muts if (m.get('fn') or '').endswith('::resize') and '</analyzerinfo>' in [y.get('v') for y in walk(m) if y.get('k') == 'StringLiteral']]
+    other = [m for m in muts if m not in allowed]
+    ok = len(allowed) == 1 and not other
+    ctx.ob(rid, 'reopen-keeps-content', ok, 'reopen() cuts the stored content at the closing tag and writes it back unchanged' if ok else
+           ('AnalyzerInformation::reopen modifies the stored content before writing it back (%s at line %s): findings of a file whose results were taken from the cache exist only '
+            'there, so what is dropped here is missing in every later run' % ((other[0].get('fn') or 'call'), other[0]['l']) if other else
+            'AnalyzerInformation::reopen no longer cuts the stored content at the closing tag'), '%s:%s' % (ro['file'], (other[0]['l'] if other else ro['line'])))
